@@ -374,6 +374,16 @@ func (ex *Exec) specIdent(sc *specCtx, e *ast.Ident) (Val, bool) {
 			}
 		}
 	}
+	// check clauses: a local that is in scope at the return statement of the exit being checked
+	if sc.root().lenient && sc.st != nil && sc.st.retPos != token.NoPos {
+		if scope := ex.pkg.Types.Scope().Innermost(sc.st.retPos); scope != nil {
+			if _, obj := scope.LookupParent(name, sc.st.retPos); obj != nil {
+				if v, ok := obj.(*types.Var); ok && !(v.Pkg() != nil && v.Parent() == v.Pkg().Scope()) {
+					return ex.specLoadVar(sc, v)
+				}
+			}
+		}
+	}
 	// package level
 	pk := sc.pkg
 	if pk == nil {
@@ -386,6 +396,11 @@ func (ex *Exec) specIdent(sc *specCtx, e *ast.Ident) (Val, bool) {
 		case *types.Const:
 			return Val{constToTerm(o.Val(), o.Type(), ex), o.Type()}, true
 		}
+	}
+	if sc.root().lenient && sc.st != nil && sc.st.retPos != token.NoPos && ex.isLocalName(name) {
+		// a local of the function that is not in scope at this exit: the clause does not apply here
+		sc.root().missing = true
+		return Val{I(0), typInt}, false
 	}
 	if sc.lenient && ex.fc != nil {
 		for _, cp := range ex.fc.Captures {
@@ -702,6 +717,9 @@ func (ex *Exec) specCall(sc *specCtx, e *ast.CallExpr) (Val, bool) {
 		}
 		a := ex.specArgs(sc, e.Args[1:])
 		return Val{ex.fmtIdTerm(format, a), typInt}, true
+	case "errIs":
+		a := ex.specArgs(sc, e.Args)
+		return Val{And(Ne(a[0].T, I(0)), ex.errIs(a[0].T, a[1].T)), typBool}, true
 	case "cat":
 		a := ex.specArgs(sc, e.Args)
 		return Val{App("catS", SSlice, a[0].T, a[1].T), types.NewSlice(types.Typ[types.Uint8])}, true
@@ -940,4 +958,26 @@ func pickType(have, want types.Type) types.Type {
 		return have
 	}
 	return want
+}
+
+// isLocalName reports whether some local variable of the function under verification has this name.
+func (ex *Exec) isLocalName(name string) bool {
+	if ex.fn == nil {
+		return false
+	}
+	decl := ex.prog.funcDecls[ex.fn]
+	pkg := ex.prog.funcPkg[ex.fn]
+	if decl == nil || pkg == nil || decl.Body == nil {
+		return false
+	}
+	found := false
+	ast.Inspect(decl.Body, func(n ast.Node) bool {
+		if id, ok := n.(*ast.Ident); ok && id.Name == name {
+			if _, isVar := pkg.TypesInfo.Defs[id].(*types.Var); isVar {
+				found = true
+			}
+		}
+		return !found
+	})
+	return found
 }
